@@ -228,13 +228,20 @@ def _failed_theorems(build_output: str) -> list[str]:
     return names[:12]
 
 
-def pysem_stage(oc, prop: str, groups: list, seed: int, tier: str) -> dict:
+def pysem_stage(oc, prop: str, groups: list, seed: int, tier: str, effects: bool = False) -> dict:
     """semantics check of the mini-Python interpreter against CPython on the translated functions of `groups`
     (harness/pysem.py).  A disagreement means the meaning Model/PyLang.lean gives to the translated source is not CPython's:
     the `…_matches_source` theorems then say nothing about the code — reported as a broken correspondence."""
     from . import pysem
     try:
-        rep = pysem.check(groups, seed, 25 if tier == 'quick' else 400)
+        rep = pysem.check(groups, seed, 25 if tier == 'quick' else 400) if groups else {'cases': 0, 'mismatch_count': 0, 'mismatches': []}
+        if effects:
+            # the builder functions act on objects: the effects `Py.callEffects` records vs the effects the real functions perform
+            # on recording proxies
+            er = pysem.check_effects(seed, 20 if tier == 'quick' else 300)
+            rep.update({k: v for k, v in er.items() if k != 'effect_mismatches'})
+            rep['mismatch_count'] += er['effect_mismatch_count']
+            rep['mismatches'] = rep.get('mismatches', []) + er['effect_mismatches']
     except LeanFailure as e:
         rep = {'cases': 0, 'mismatch_count': 1, 'mismatches': [{'driver': e.output[-600:]}]}
     if rep['mismatch_count']:
@@ -242,7 +249,8 @@ def pysem_stage(oc, prop: str, groups: list, seed: int, tier: str) -> dict:
                       'unchecked': 'mini-Python interpreter (Model/PyLang.lean) vs CPython on the translated source functions',
                       'first_differences': rep['mismatches'][:5], 'count': rep['mismatch_count']}, found_input=False)
     return {'source_semantics_check': {k: rep[k] for k in ('cases', 'skipped_not_encodable', 'per_function', 'raising_cases',
-                                                             'mismatch_count') if k in rep}}
+                                                             'mismatch_count', 'effect_cases', 'effect_events', 'effect_skipped',
+                                                             'effect_per_function') if k in rep}}
 
 
 def driver_available() -> bool:
